@@ -117,7 +117,7 @@ class Family:
             self.out.add_tlc('ViseMC behaviour generation %s mode=%s MaxReq=%d' % (prog, mode, maxreq), r)
             if hists:
                 self.out.sample(dict(kind='TLC-generated client history replayed on the real engine', program=prog, history=hists[len(hists) // 2]))
-            self.out.cov['traces_validated_against_impl'] += summ['sessions']
+            self.out.cov['traces_validated_against_impl'] += summ.get('sessions', 0)
             program = json.load(open(prog_path(prog)))
             self.validate(tr, 'replay of model history (%s, mode %s)' % (prog, mode),
                           lambda ev, hists=hists, program=program: dict(program=program, history=hists[int(ev['sid'].rsplit('.h', 1)[1])]))
@@ -127,7 +127,7 @@ class Family:
         tr = os.path.join(self.d, 'random_%s.ndjson' % mode)
         p = core.run_harness(['vise-random', tr, str(nprog), str(nsess), str(maxreq), mode], env=getattr(self, 'random_env', None))
         summ = harness_summary(p)
-        self.out.cov['traces_validated_against_impl'] += summ['sessions']
+        self.out.cov['traces_validated_against_impl'] += summ.get('sessions', 0)
         progs, reqs = {}, {}
         for line in open(tr):
             if line.startswith('{"ev":"prog"'):
@@ -164,7 +164,7 @@ class Family:
             tr = os.path.join(self.d, 'ptrace_%s.ndjson' % prog)
             p = core.run_harness(['vise-pairs-hist', prog_path(prog), hp, tr, stores])
             summ = harness_summary(p)
-            self.out.cov['traces_validated_against_impl'] += summ['pairs'] * 2
+            self.out.cov['traces_validated_against_impl'] += summ.get('pairs', 0) * 2
             self.validate(tr, 'model history served long-lived and persisted (%s)' % prog,
                           lambda ev: dict(program=pj, history=hists[int(ev['sid'].rsplit('.h', 1)[1])],
                                           pair=dict(kind=ev.get('kind', 'mode'), store=ev.get('store'),
@@ -175,8 +175,8 @@ class Family:
         tr = os.path.join(self.d, 'examples.ndjson')
         p = core.run_harness(['vise-examples', os.path.join(core.REPO, 'examples'), tr, str(nsess), str(maxreq), mode])
         summ = harness_summary(p)
-        self.out.cov['traces_validated_against_impl'] += summ['sessions']
-        self.out.cov['example_apps'] = summ['apps']
+        self.out.cov['traces_validated_against_impl'] += summ.get('sessions', 0)
+        self.out.cov['example_apps'] = summ.get('apps', 0)
         progs, reqs = {}, {}
         for line in open(tr):
             if line.startswith('{"ev":"prog"'):
